@@ -1267,7 +1267,7 @@ class Scalar(Qube):
         self._check_axis(axis, 'sort()')        # make sure axis input is valid
 
         if self._size_ == 0:
-            return self.wod._zero_sized_result(axis)
+            return self.wod
 
         if not np.any(self._mask_):
             result = Scalar(np.sort(self._values_, axis=axis), mask=False,
@@ -1290,7 +1290,7 @@ class Scalar(Qube):
             result = Scalar(new_values, new_mask, units=self._units_)
 
             # Replace the masked values by the max
-            new_values[new_mask] = result.max()
+            new_values[new_mask] = result.max()._values_
 
         return result.wod
 
